@@ -181,7 +181,7 @@ def gen_scenarios(pid, tier, seed, wd):
     return out
 
 
-def run_sm(pid, tier, seed, replay, t0):
+def run_sm(pid, tier, seed, replay, t0, extra_cov=None, extra_viol=0, extra_rc=0):
     import replay as rpl
     wd = vlib.workdir("sm." + pid)
     vlib.build_harness()
@@ -267,8 +267,16 @@ def run_sm(pid, tier, seed, replay, t0):
         "checker_cmd": "tlc MCOmaha.tla (INVARIANT Inv_%s) ; tlc Mon.tla (PROP=%s) over the recorded ndjson log" % (pid, pid),
         "exhaustive": False,
     }
-    vlib.write_evidence(pid, tier, seed, "model_checking", cov, ASSUME_SM, t0, len(viols))
-    return rc
+    if extra_cov:
+        cov["generator_part"] = extra_cov
+        cov["states"] += extra_cov["states"]
+        cov["transitions"] += extra_cov["transitions"]
+        cov["traces_validated_against_impl"] += extra_cov["traces_validated_against_impl"]
+        cov["evaluations"] += extra_cov["evaluations"]
+        cov["distinct_nontrivial"] += extra_cov["distinct_nontrivial"]
+    vlib.write_evidence(pid, tier, seed, "model_checking", cov, ASSUME_SM + (ASSUME_FN if extra_cov else []), t0,
+                        len(viols) + extra_viol)
+    return max(rc, extra_rc)
 
 
 FN_PROPS = {
@@ -289,6 +297,15 @@ FN_PROPS["C19"] = {
             "and offset in -3..3, every instant around them at sub-microsecond positions {0,1,500,999} ns, and every "
             "combination of wall-only / monotonic-only / complete times over a small grid with every small duration, "
             "enumerated by TLC from TimeConv.tla with the model's result; the MID anchors are concretised from VERIF_SEED"}
+
+FN_PROPS["C13g"] = {
+    "title": "generator: ordered, lossless, back-pressured, no lost wake-up", "module": "MCGenerator", "cmd": "gen",
+    "cfg": {"quick": ["gen_inv.cfg", "gen_strict.cfg", "gen_lazy.cfg"], "thorough": ["gen_inv5.cfg", "gen_strict4.cfg", "gen_lazy.cfg"]},
+    "prefixes": ["GEN"],
+    "nontrivial": lambda v: len(v.get("prog", [])) >= 2,
+    "rule": "every generator program of bounded length over {yield, self-wake, await gate 1/2, drop handle} x every consumer "
+            "schedule of bounded length (strict: polls only when woken; lazy: polls and gate fires in any order), enumerated by "
+            "TLC from Generator.tla with each poll's result, wake-up flag and task position; non-trivial = programs of >= 2 ops"}
 
 ASSUME_FN = ["The TLA+ reference model is the property's definition of the right output; inputs the property does not "
              "settle are marked unconstrained in the model and only 'does not panic' is required there."]
@@ -314,7 +331,7 @@ def ver_extra(rng, tier):
     return out
 
 
-def run_fn(pid, tier, seed, replay, t0):
+def run_fn(pid, tier, seed, replay, t0, as_part_of=None):
     spec = FN_PROPS[pid]
     wd = vlib.workdir("fn." + pid)
     vlib.build_harness()
@@ -361,17 +378,27 @@ def run_fn(pid, tier, seed, replay, t0):
             r["bad"], json.dumps(r["vec"])[:300], json.dumps(r.get("got"))[:200])})
     if summary is None or summary["n"] != len(vecs):
         raise vlib.ToolError("harness did not process all vectors")
-    rc = vlib.report(pid, viols)
+    rc = vlib.report(as_part_of or pid, viols)
     nt = set(json.dumps(v, sort_keys=True) for v in vecs if spec["nontrivial"](v))
     cov = {"states": stats["states"], "transitions": stats["transitions"], "model_runs": stats["runs"],
            "traces_validated_against_impl": len(vecs), "evaluations": len(vecs), "distinct_nontrivial": len(nt),
            "rule": spec["rule"], "samples": vecs[:3] + vecs[len(vecs) // 2: len(vecs) // 2 + 2],
            "checker_cmd": "tlc %s.tla ; vh %s" % (spec["module"], spec["cmd"]), "exhaustive": True}
+    if as_part_of:
+        return rc, cov, len(viols)
     vlib.write_evidence(pid, tier, seed, "model_checking", cov, ASSUME_FN, t0, len(viols))
     return rc
 
 
 def run(pid, tier, seed, replay, t0):
+    if pid == "C13":
+        # two halves: the generator (Generator.tla, direct comparison) and the flow (Omaha.tla / monitor)
+        if replay and replay.endswith(".ndjson"):
+            return run_fn("C13g", tier, seed, replay, t0, as_part_of="C13")[0]
+        if replay:
+            return run_sm(pid, tier, seed, replay, t0)
+        grc, gcov, gviol = run_fn("C13g", tier, seed, None, t0, as_part_of="C13")
+        return run_sm(pid, tier, seed, None, t0, extra_cov=gcov, extra_viol=gviol, extra_rc=grc)
     if pid in SM_PROPS:
         return run_sm(pid, tier, seed, replay, t0)
     if pid in FN_PROPS:
@@ -384,7 +411,7 @@ NOT_YET = {}
 
 def describe(pid):
     """Manifest entry text for a property, or None when no check exists yet."""
-    if pid in SM_PROPS and pid not in ("C13",):
+    if pid in SM_PROPS:
         return {
             "engine": "tlc+harness",
             "design_ref": "DESIGN.md section 6 (%s), sections 3-5" % pid,
@@ -398,7 +425,7 @@ def describe(pid):
             "level_note": "Trusted: TLC, the harness doubles and projection (independent signer / encoder / URL splitter), "
                           "embedder contracts as documented. Bounded/sampled exploration, not a proof.",
         }
-    if pid in FN_PROPS:
+    if pid in FN_PROPS and pid != "C13g":
         return {
             "engine": "tlc+harness",
             "design_ref": "DESIGN.md section 6 (%s)" % pid,
